@@ -28,11 +28,29 @@ def grid(r, kind, n):
     if kind == "const":
         step = r.choice([2, 5, 10])
         return [start + step * i for i in range(n)]
+    if kind == "halves":
+        # time items that are not whole numbers (half years), unevenly spaced; every other time the
+        # average step is exactly one although no two neighbouring steps are equal
+        steps = [Fraction(r.choice([1, 3, 2, 5]), 2) for _ in range(n - 1)]
+        if r.random() < 0.5:
+            rest = Fraction(n - 1) - sum(steps[:-1])
+            if rest > 0:
+                steps[-1] = rest
+        items, cur = [Fraction(start)], Fraction(start)
+        for st in steps:
+            cur += st
+            items.append(cur)
+        return [int(i) if i.denominator == 1 else f"{i.numerator}/{i.denominator}" for i in items]
     items, cur = [start], start
     for _ in range(n - 1):
         cur += r.choice([1, 1, 2, 3, 4, 5])
         items.append(cur)
     return items
+
+
+def item_span(items):
+    f = [Fraction(i) for i in items]
+    return max(1, int(f[-1] - f[0]))
 
 
 def prm_value(r, name, span):
@@ -98,7 +116,7 @@ def gen_dsm(tier, seed):
         short = r.random() < 0.15
         if short:
             n = r.randint(7, 10)
-        gk = r.choice(["unit", "const", "uneven", "uneven"]) if not short else r.choice(["unit", "unit", "uneven"])
+        gk = r.choice(["unit", "const", "uneven", "uneven", "halves"]) if not short else r.choice(["unit", "unit", "uneven"])
         items = grid(r, gk, n)
         if r.random() < 0.03:
             items = items[: r.choice([1, 2])]          # too short: must be refused
@@ -113,7 +131,7 @@ def gen_dsm(tier, seed):
         for e in extra:
             m *= e
         cls = r.choice(list(MODELS))
-        span = max(1, items[-1] - items[0]) if n > 1 else 1
+        span = item_span(items) if n > 1 else 1
         prms = {p: prm_spec(r, p, letters, shape, span) for p in MODELS[cls]}
         if short and n >= 4:
             # short-lived early cohorts, longer-lived later ones: the first cohorts die out completely
